@@ -202,7 +202,8 @@ def _raw_recheck(case, text, res):
     if case.prog is None or case.mut or case.wit_fixed or res.get("nodes", 0) > 260 or res.get("evals", 0) > 6000:
         return
     h = int(hashlib.sha256(case.cid.encode()).hexdigest()[:6], 16)
-    if RAW_SAMPLE <= 0 or h % RAW_SAMPLE:
+    sample = RAW_SAMPLE if os.environ.get("VERIF_TIER") != "thorough" else max(1, RAW_SAMPLE // 3)
+    if sample <= 0 or h % sample:
         return
     T.reset()
     T.RAW[0] = True
@@ -221,6 +222,8 @@ def _raw_recheck(case, text, res):
         res["raw_" + r] = res.get("raw_" + r, 0) + 1
         if goal.op == "c":
             res["raw_trivial"] = res.get("raw_trivial", 0) + 1
+        if r == "unsat":
+            _second_opinion(goal, res)
         if r == "sat":
             raise Broken("un-normalised goal is satisfiable although the normalised goal was refuted: a rewriting rule of terms.py is unsound (case %s)" % case.cid)
     finally:
